@@ -47,6 +47,11 @@ VIEWS = [r'^(nano::)?tensor\dd_c?map_t$', r'^(nano::)?(vector|matrix|indices|mas
          r'^(nano::)?tensor_t<nano::tensor_(c|m)array_storage_t,', r'^Eigen::', r'^(const )?Eigen::',
          r'^(nano::)?eigen_(vector|matrix)_c?map_t<', r'^(nano::)?tensor_base_t<', r'^(nano::)?tensor_storage_t<']
 ERASED = OWNERS + VIEWS
+# views of CONST data (tensor_cmap_t, Eigen::Map<const T>): nothing can be written through them, whatever overload clang
+# picked (libnano's carray storage hands out `const T&` from its non-const accessors too); the view OBJECT itself changes
+# only by an assignment to it
+CONST_VIEWS = r'tensor_carray_storage_t|_cmap_t$|tensor_cmap_t<|Map<const '
+ASSIGN_OPS = ('operator=', 'operator+=', 'operator-=', 'operator*=', 'operator/=')
 # the obligations of a frame target: every write against the assigns clause (always on), memory safety of the model
 # (slot indices, pointers).  Arithmetic overflow of erased / havocked counters is not a frame question (C02, C16, C17 own it).
 CHECKS = ['--bounds-check', '--pointer-check', '--pointer-overflow-check']
@@ -104,7 +109,10 @@ class Layout:
             bflt = bases_of.get(bq, bq if bq.startswith('nano::') or '::' in bq else 'nano::' + bq)
             if bflt is None:
                 continue
-            out += self._fields(self.base_tu or tu, bq, re.sub(r'<.*$', '', bflt), bases_of, seen)
+            btu = self.base_tu or tu
+            if isinstance(bflt, tuple):
+                btu, bflt = bflt
+            out += self._fields(btu, bq, re.sub(r'<.*$', '', bflt), bases_of, seen)
         for f in rec.get('inner', []):
             if f.get('kind') == 'FieldDecl':
                 out.append((f.get('name'), f['type'], bool(f.get('mutable')), cls))
@@ -163,36 +171,56 @@ class FrameTrack:
         self.touch = touch
         self.active = set()
         self.lvalue_hooks = list(lvalue_hooks)   # expression hooks of the spec that print a call as an lvalue of an erased object
+        self.accessor_rx = r'^\(\*nv_\w+_at\('
 
     # -- classification
     def is_cell(self, P, t):
         return P.is_opaque(t or {})
 
-    def mapped_call(self, P, n):
-        """a call the spec gives a meaning to (not auto-erased)"""
+    def mapping_of(self, P, n):
+        """the mapping text the spec gives a call (None: the call is auto-erased / unsupported)"""
         k = n.get('kind')
         inner = n.get('inner', [])
-        for h in self.lvalue_hooks:
-            if h(P, n) is not None:
-                return True
         try:
             if k == 'CXXMemberCallExpr' and inner and inner[0].get('kind') == 'MemberExpr':
                 me = inner[0]
                 obj = me['inner'][0]
                 lit = cxx2c.string_literal_of(inner[1]) if len(inner) > 1 else None
-                key = f'{me["name"]}|{strip_cv(qual(obj["type"]))}' + (f'|"{lit}"' if lit is not None else '') + f'|#{len(inner) - 1}'
-                return P.lookup(P.members, key) is not None
+                key = f'{me["name"]}|{strip_cv(qual(obj["type"]))}' + (f'|"{lit}"' if lit is not None else '') + f'|#{len(inner) - 1}' + P.template_text(me, me['name'])
+                return P.lookup(P.members, key)
             if k in ('CallExpr', 'CXXOperatorCallExpr'):
                 rd = unwrap(inner[0]).get('referencedDecl')
                 if rd is None:
-                    return False
+                    return None
                 a0 = strip_cv(qual(inner[1]['type'])) if len(inner) > 1 else ''
                 lit = cxx2c.string_literal_of(inner[1]) if len(inner) > 1 else None
                 key = f'{rd["name"]}|{rd["type"]["qualType"]}|{a0}' + (f'|"{lit}"' if lit is not None else '') + f'|#{len(inner) - 1}'
-                return P.lookup(P.calls, key) is not None
+                return P.lookup(P.calls, key)
         except (KeyError, IndexError):
+            return None
+        return None
+
+    def accessor(self, P, n):
+        """a call that only NAMES a part of an object (an element of a vector, the parameter list of a configurable): the
+        spec's lvalue hooks and mappings to `(*nv_<x>_at(..))` stubs; it has no effect of its own"""
+        if n.get('kind') not in CALL_KINDS:
             return False
-        return False
+        for h in self.lvalue_hooks:
+            if h(P, n) is not None:
+                return True
+        m = self.mapping_of(P, n)
+        return m is not None and re.match(self.accessor_rx, m) is not None
+
+    @staticmethod
+    def effectful(mapping):
+        """a mapping that calls something (an extracted function, a stub); `{0}`, `{self}->m_x`, `@drop`, `@nondet` only read"""
+        if mapping is None:
+            return False
+        m = mapping.rstrip('!^')
+        return m not in ('@drop', '@nondet') and re.search(r'[A-Za-z_]\w*\s*\(', m if ('{' in m or '(' in m) else m + '(') is not None
+
+    def mapped_call(self, P, n):
+        return self.accessor(P, n) or self.mapping_of(P, n) is not None
 
     def mention(self, P, n):
         """n denotes an erased object (an lvalue the printer can take the address of)"""
@@ -204,7 +232,7 @@ class FrameTrack:
         if k == 'MemberExpr':
             return n.get('valueCategory') == 'lvalue'
         if k in CALL_KINDS and n.get('valueCategory') == 'lvalue':
-            return self.mapped_call(P, n)
+            return self.accessor(P, n)
         return False
 
     def declared_const(self, n):
@@ -243,6 +271,21 @@ class FrameTrack:
             return 'mutable'
         return 'mutable'
 
+    def const_view(self, n):
+        t = n.get('type', {})
+        return any(q and re.search(CONST_VIEWS, strip_cv(q)) for q in (t.get('qualType'), t.get('desugaredQualType')))
+
+    def assigned_to(self, n, parents):
+        for p in reversed(parents):
+            k = p.get('kind')
+            if k in ('ParenExpr',) or k in TRANSPARENT:
+                continue
+            if k == 'CXXOperatorCallExpr' and len(p.get('inner', [])) >= 2:
+                op = unwrap(p['inner'][0]).get('referencedDecl', {}).get('name')
+                return op in ASSIGN_OPS and unwrap(p['inner'][1]) is n
+            return False
+        return False
+
     def collect(self, P, n, parents=None, out=None):
         """addresses (C text) of the erased objects with a possibly-mutating mention inside n"""
         if out is None:
@@ -254,6 +297,8 @@ class FrameTrack:
             return out          # lambdas are extracted as functions of their own (the spec maps the call that takes them)
         if self.mention(P, n):
             ctx = self.context(parents)
+            if ctx == 'mutable' and self.const_view(n) and not self.assigned_to(n, parents):
+                ctx = 'const'
             if ctx == 'dropconst' or (ctx == 'mutable' and not self.declared_const(n)):
                 a = P.addr(n)
                 if a not in out:
@@ -266,12 +311,23 @@ class FrameTrack:
             self.collect(P, c, parents + [n], out)
         return out
 
+    def drop_guard(self, P, n, key):
+        """an argument that a mapping does not translate (`@drop`, a template that leaves it out): nothing the spec gives a
+        meaning to may hide in it (a call of an extracted function / a stub, a store into a modelled object); possibly-
+        mutating mentions of erased objects inside it are charged by the statement hook like everywhere else"""
+        P.check_pure(n, f'argument not translated by the mapping of {key}')
+        for x in astload.walk(n):
+            if x.get('kind') in CALL_KINDS and not self.accessor(P, x) and self.effectful(self.mapping_of(P, x)):
+                raise Unsupported(f'a call the spec maps ({cxx2c.unwrap(x["inner"][0]).get("referencedDecl", {}).get("name") or x["inner"][0].get("name")}) '
+                                  f'sits inside an argument that the mapping of {key} does not translate')
+
     def touches(self, addrs, p):
         return ''.join(f'{p}{self.touch}({a});\n' for a in addrs)
 
     # -- the statement hook
     def stmt_hook(self, P, n, ind):
         k = n.get('kind')
+        P.drop_guard = self.drop_guard      # (the first statement printed is the function body: set before any expression)
         if id(n) in self.active or k in SKIP or k is None:
             return None
         p = '  ' * ind
@@ -324,7 +380,7 @@ class FrameTrack:
             if v.get('kind') == 'VarDecl' and init and ty.endswith('&') and not _is_const_q(ty):
                 u = unwrap(init[0])
                 # a non-const reference bound to a mapped lvalue call (`auto& acc = accs[tnum]`): alias the real object
-                if u.get('kind') in CALL_KINDS and self.is_cell(P, u.get('type')) and self.mapped_call(P, u):
+                if u.get('kind') in CALL_KINDS and self.is_cell(P, u.get('type')) and self.accessor(P, u):
                     c = P.ctype(v['type'])
                     P.note('frame: reference bound to a mapped lvalue -> alias')
                     out += self.touches(w, p) + f'{p}{c} {v["name"]} = {P.addr(u)};\n' + P.after(p)
